@@ -27,6 +27,8 @@ def _accept_info(method, n=1, tol="scalar", backward=False):
             cond = (c, choice)   # the first data-dependent decision of the iteration is the accept test
             break
     if cond is None:
+        if method == "RK4":
+            return p, (None, None), p.rec.callbacks[1]["y"], K   # fixed step: no error test
         raise Unsupported(f"{method}: accept decision not found")
     return p, cond, p.rec.callbacks[1]["y"], K
 
@@ -96,6 +98,10 @@ def _radau_tolerances(kind, n=2):
             raise PathEnd("after_tolerances")
         if pat[0] == "pbind" and pat[1] in ("rtol", "atol"):
             state[pat[1]] = v
+        if pat[0] == "ptuple" and isinstance(v, tuple):
+            for sub, val in zip(pat[1], v):
+                if sub[0] == "pbind" and sub[1] in ("rtol", "atol"):
+                    state[sub[1]] = val
         return v
 
     hooks = M.make_hooks(dom, rec, n, extra={"on_let": on_let})
@@ -117,7 +123,8 @@ def _radau_tolerances(kind, n=2):
             raise
     rtv, atv = state.get("rtol"), state.get("atol")
     if rtv is None or atv is None:
-        raise Unsupported("rtol/atol rebinding not found in RADAU::solve")
+        # not rebound: the parameters themselves were transformed in place
+        rtv, atv = rt, at
     out_r = [it.index(rtv, i) for i in range(n)]
     out_a = [it.index(atv, i) for i in range(n)]
     return out_r, out_a, r0, a0
@@ -214,6 +221,12 @@ def c13_reflection(method):
         # accept test: substitute k -> -k (z' = -f) in the backward condition, must equal the forward one
         pf, (cf, chf), yf, Kf = _accept_info(method, n=1, backward=False)
         pb, (cb, chb), yb, Kb = _accept_info(method, n=1, backward=True)
+        if cf is None or cb is None:
+            if (cf is None) != (cb is None):
+                failed.append(f"{method}: an error test exists in one direction only")
+            q.quantified = q.n
+            return _result(f"c13_reflection_{method.lower()}", q, t0, failed,
+                           {"functions": [f"{method}::solve one iteration, forward and backward"], "bounds": "n=1, exact arithmetic"}, replayed=None)
         sub = {kb: -kf for kb, kf in zip(Kb, Kf)}
         cb2 = cb.subs(sub, simultaneous=True)
         symmap = {}
